@@ -7,8 +7,8 @@
    - every numeric kind is [VNum z] (its value); bool is [VBool];
    - a time.Time is [VTime z]: 0 = the zero time, otherwise its Unix seconds (the generator uses
      distinct positive seconds).  reflect.Kind of a time.Time is Struct; the code special-cases it;
-   - a struct is the list of its fields in declaration order, each with name index, exportedness and
-     the coerce tag; pointer / slice / map / interface carry [None] for nil; a map is the list of its
+   - a struct is the list of its fields in declaration order, each with name index, exportedness, whether it
+     is embedded (anonymous) and the coerce tag; pointer / slice / map / interface carry [None] for nil; a map is the list of its
      (key index, value) pairs sorted by key; an array is the list of its elements.
    The model is over trees: values with sharing are not expressible (scrubbing through a shared pointer
    can only scrub more). *)
@@ -21,7 +21,9 @@ Inductive tag := TNone | TSecure | TIgnore | TBoth.
 Definition has_secure (t : tag) : bool := match t with TSecure | TBoth => true | _ => false end.
 Definition has_ignore (t : tag) : bool := match t with TIgnore | TBoth => true | _ => false end.
 
-Record fmeta := { f_name : N; f_exported : bool; f_tag : tag }.
+(* f_embedded: an anonymous (embedded) field.  An embedded struct (or *struct) of an UNEXPORTED type is an
+   unexported field whose exported fields are nevertheless promoted and serialised by the JSON encoders. *)
+Record fmeta := { f_name : N; f_exported : bool; f_embedded : bool; f_tag : tag }.
 
 Inductive gv : Type :=
 | VStr (s : N)
@@ -180,7 +182,8 @@ Definition tag_eqb (a b : tag) : bool :=
   end.
 
 Definition fmeta_eqb (a b : fmeta) : bool :=
-  N.eqb (f_name a) (f_name b) && Bool.eqb (f_exported a) (f_exported b) && tag_eqb (f_tag a) (f_tag b).
+  N.eqb (f_name a) (f_name b) && Bool.eqb (f_exported a) (f_exported b) && Bool.eqb (f_embedded a) (f_embedded b) &&
+  tag_eqb (f_tag a) (f_tag b).
 
 Fixpoint gv_eqb (a b : gv) {struct a} : bool :=
   match a, b with
